@@ -209,4 +209,17 @@ Proof.
     assert (llen a <= lim) by (eapply split_loop_bound; [|exact E]; unfold llen; simpl; lia). lia.
 Qed.
 
+
+(* otto's split on the empty subject is 15.5.4.14 step 11 (repaired in /repo a84f554):
+   [] when the separator matches the empty string, [""] otherwise, for any engine *)
+Theorem split_empty_subject : forall li lim given,
+  (given = false -> lim <> 0) ->
+  split_model mt li [] lim given = split_spec mt li [] lim.
+Proof.
+  intros li lim given H. unfold split_model, split_spec.
+  destruct given; cbn [andb].
+  - destruct (lim =? 0); reflexivity.
+  - destruct (Z.eqb_spec lim 0) as [E|E]; [exfalso; exact (H eq_refl E)|]. reflexivity.
+Qed.
+
 End P.
